@@ -982,8 +982,9 @@ def run(ctx):
     if pid == "C08":
         ctx.rule = ("specs of hierarchical netlists built through the API: sharing DAGs (definitions instanced many times, at several depths, "
                     "across 1-3 libraries, also by definitions outside the top hierarchy and by parent-less instances), pass-through and wire-only "
-                    "cells, unconnected pins, bus ports/cables, unnamed definitions/instances, EDIF.identifier entries, taken _sdn_unique_ names; "
-                    "distinct = distinct spec; non-trivial = uniquify creates at least one definition")
+                    "cells, unconnected pins, bus ports/cables, unnamed definitions/instances/ports/cables, EDIF.identifier entries, taken _sdn_unique_ names; "
+                    "35% with a history on the same live netlist (uniquify, then 1-3 rounds of public-API edits incl. bulk removers, re-pointing, "
+                    "leaf<->non-leaf changes, each followed by a fully checked uniquify); distinct = distinct spec; non-trivial = uniquify creates at least one definition")
         ctx.assumptions = ["leaf = Definition.is_leaf() as coded: no children AND no cables",
                            "default naming policy (no EDIF namespace active)", "netlist self-contained (every reference inside it), acyclic",
                            "'instance reachable from top' = strictly below the top instance (the top instance itself is never re-pointed; docs: 'below the top instance')",
